@@ -168,7 +168,26 @@ impl Validator {
                     kind: LinkerErrorType::MissingDependency,
                 }) {
                     Ok(mut tld) => {
-                        if let Err(mut e) = tld.link_constraint_reference(&self.tlds) {
+                        // X.683 8.3: inside a parameterized type its dummy references hide
+                        // definitions of the same name; they are resolved when the type is instantiated
+                        let linked = match &tld {
+                            ToplevelDefinition::Type(ToplevelTypeDefinition {
+                                parameterization: Some(parameterization),
+                                ..
+                            }) if parameterization
+                                .parameters
+                                .iter()
+                                .any(|p| self.tlds.contains_key(&p.dummy_reference)) =>
+                            {
+                                let mut visible = self.tlds.clone();
+                                for p in &parameterization.parameters {
+                                    visible.remove(&p.dummy_reference);
+                                }
+                                tld.link_constraint_reference(&visible)
+                            }
+                            _ => tld.link_constraint_reference(&self.tlds),
+                        };
+                        if let Err(mut e) = linked {
                             e.contextualize(&key);
                             warnings.push(e.into());
                         }
